@@ -83,18 +83,41 @@ def call_noise(via, signal, spec, x=None):
     return wv.get()
 
 
-def run_seam_case(st, keep_log=False):
+def long_signal(st, n):
+    k = st.draw(0, 2, "long-shape")
+    t = np.arange(n, dtype=float)
+    a = (5.0 + 3.0 * np.sin(t / 50.0)) if k == 0 else (4.0 * np.sin(t / 37.0) if k == 1 else np.where((t // 100) % 2 == 0, 2.0, -7.0))
+    return a.tolist(), a.copy(), "float64"
+
+
+def gen_snr_long(st, n, vals):
+    a = np.asarray(vals, dtype=float)
+    sp = float(np.mean(a ** 2))
+    mode = st.draw(0, 2, "snr-mode")
+    if mode == 0:
+        snr = st.pick((10, 20, 0), "snr")
+        return {"snr": snr, "db": True}, np.full(n, (sp / 10 ** (snr / 10)) ** 0.5), f"snr={snr}dB"
+    if mode == 1:
+        s_ = 10.0 + 20.0 * ((np.arange(n) // 1000) % 2)
+        return {"snr": s_, "db": True}, (sp / 10 ** (s_ / 10)) ** 0.5, "per-sample snr (dB, array)"
+    sd = st.pick((1.0, 0.25), "std")
+    return {"snr": None, "std": sd}, np.full(n, sd), f"std={sd}"
+
+
+def run_seam_case(st, keep_log=False, params_long=False):
     res = R.Result()
     n = st.draw(1, 120, "n") if not st.coin(1, 10, "long") else st.draw(121, 2000, "n")
-    vals, signal, form = gen_signal(st, n)
-    spec, expected_std, text = gen_snr(st, n, vals)
+    if params_long:
+        n = st.pick((131073, 200000, 262145, 70001), "long-n")
+    vals, signal, form = gen_signal(st, n) if not params_long else long_signal(st, n)
+    spec, expected_std, text = gen_snr(st, n, vals) if not params_long else gen_snr_long(st, n, vals)
     via = st.pick(("process", "weaver", "process-explicit", "weaver-explicit"), "via")
     xs = [float(i) * 0.5 - 3 for i in range(n)]
     x_in = np.array(xs) if via.startswith("weaver") and st.coin(1, 2, "x?") else None
     if via.startswith("weaver") and n < 1:
         via = "process"
     seed = st.draw(0, 10 ** 6, "rng-seed")
-    case = {"n": n, "signal": brief(vals), "form": form, "noise": text, "via": via}
+    case = {"n": n, "signal": brief(vals[:50]), "form": form, "noise": text, "via": via}
     pristine = np.array(vals, dtype=float)
     seam = RngSeam()
     seam.seed(seed)
@@ -124,9 +147,10 @@ def run_seam_case(st, keep_log=False):
             res.stats["seam-multiple-draws-not-judged"] += 1
         if len(seam.calls) == 1:
             c = seam.calls[0]
-            z = np.broadcast_to(np.asarray(c["z"], dtype=float), (n,)) if np.ndim(c["z"]) <= 1 else None
-            if z is None or np.shape(c["z"]) not in ((n,), ()):
-                raise Violation("C15/wrong-draw-shape", key, f"Gaussian draw of size {c['size']} for {n} samples ({case})")
+            z = np.broadcast_to(np.asarray(c["z"], dtype=float), (n,)) if np.shape(c["z"]) in ((n,), ()) else None
+            if z is None or (np.shape(c["z"]) == () and n > 1):
+                raise Violation("C15/fewer-draws-than-samples", key, f"one Gaussian draw of size {c['size']} was made for "
+                                f"{n} samples: the noise terms of different samples cannot be independent ({case})")
             noise_term = ry - a
             want = expected_std * z
             tol = 1e-9 * max(1.0, float(np.max(np.abs(want))) if n else 1.0, float(np.max(np.abs(a))) if n else 1.0)
@@ -216,6 +240,15 @@ def run_blackbox_case(st, keep_log=False):
             raise Violation("C15/noise-not-gaussian", key, f"excess kurtosis {kurt:.3f} (|.| <= 0.15 expected) ({case})")
         if abs(ac) > lim:
             raise Violation("C15/noise-correlated", key, f"lag-1 autocorrelation {ac:.5f} exceeds {lim:.5f} ({case})")
+        # whiteness over ALL lags (FFT): for independent draws max |acf| ~ sqrt(2 ln N / N) ~ 0.011 at N = 2e5
+        zc = z - m
+        f = np.fft.rfft(zc, 2 * n)
+        acf = np.fft.irfft(f * np.conj(f))[:n] / (var * n)
+        k = int(np.argmax(np.abs(acf[1:]))) + 1
+        stats["max_abs_acf"] = [round(float(acf[k]), 4), k]
+        if abs(acf[k]) > 0.05:
+            raise Violation("C15/noise-correlated", key, f"autocorrelation {acf[k]:.3f} at lag {k}: the noise terms of "
+                            f"different samples are not independent draws ({case})")
         if lin is not None:
             emp = sp / float(np.mean((r1 - a) ** 2))
             case["empirical_snr_over_requested"] = round(emp / lin, 4)
@@ -240,7 +273,9 @@ def run_single(params, choices, keep_log=False):
 
 
 def _run(params, st, keep_log=False):
-    return run_blackbox_case(st, keep_log) if params["gen"] == "blackbox" else run_seam_case(st, keep_log)
+    if params["gen"] == "blackbox":
+        return run_blackbox_case(st, keep_log)
+    return run_seam_case(st, keep_log, params_long=params["gen"] == "seam-long")
 
 
 def run_unit(params, seed):
@@ -251,7 +286,8 @@ def run_unit(params, seed):
 
 def plan(tier, verif_seed):
     q = tier == "quick"
-    return [{"gen": "blackbox"}] * (16 if q else 400) + [{"gen": "seam"}] * (6000 if q else 300000)
+    return [{"gen": "blackbox"}] * (16 if q else 400) + [{"gen": "seam-long"}] * (16 if q else 200) + \
+        [{"gen": "seam"}] * (6000 if q else 300000)
 
 
 def describe():
